@@ -644,3 +644,60 @@ def run(ctx):
     type_tables(ctx)
     rpdo_dispatch(ctx)
     rpdo_layout(ctx)
+
+
+def tpdo_layout(ctx):
+    """TPDO payload layout: the mapped objects are packed back to back, little endian, each with the width its mapping
+    entry says (1, 2, 3 = 24 bit of a 32-bit object, 4 bytes), DLC = sum of the widths, identifier = the TPDO's - decided by
+    folding the packing code of COTPdoTx over mapping classes (the values come from bound object reads)."""
+    m = ctx.m
+    f = 'COTPdoTx'
+    m.need(f)
+    P = ['C12']
+    V = [0x44332211, 0x88776655, 0xCCBBAA99]
+    for widths in ((1,), (2,), (4,), (3,), (1, 2), (2, 4), (1, 2, 4), (4, 4), (1, 1, 1), (3, 1), (2, 3), (1, 4, 2)):
+        inputs = {'pdo': 1, 'pdo->Node->Nmt.Allowed': 0xFF, 'pdo->Identifier': 0x181, 'pdo->Flags': 0, 'pdo->EvTmr': -1, 'pdo->Inhibit': 0,
+                  'pdo->Event': 0, 'pdo->ObjNum': len(widths)}
+        for i, w in enumerate(widths):
+            inputs['pdo->Size[%d]' % i] = w
+            inputs['pdo->Map[%d]' % i] = 0x7000 + i
+            inputs['call:COObjGetSize#%d' % i] = 4 if w == 3 else w
+            inputs['out:COObjRdValue#%d:2' % i] = V[i] & ((1 << (8 * (4 if w == 3 else w))) - 1)
+        pe = PEval(m, f)
+        pe.record_sets = False
+        pe.store_filter = lambda k, fld: fld is not None and fld[0] == 'CO_IF_FRM'
+        pe.keep_prefixes = ('pdo->',)
+        trs = pe.run(inputs)
+        exp = []
+        for i, w in enumerate(widths):
+            exp += [(V[i] >> (8 * b)) & 0xFF for b in range(w)]
+        site = 'COTPdoTx mapping widths %s' % (widths,)
+        bad = None
+        if len(trs) != 1:
+            bad = '%d paths' % len(trs)
+        for t in trs:
+            fr = {}
+            for e in t.stores():
+                fr[e[1]] = e[2]
+            got = [fr.get('frm.Data[%d]' % i) for i in range(len(exp))]
+            if t.call_names().count('COIfCanSend') != 1:
+                bad = 'sends %d frames' % t.call_names().count('COIfCanSend')
+            elif fr.get('frm.DLC') != len(exp):
+                bad = 'DLC %s, required %d' % (fr.get('frm.DLC'), len(exp))
+            elif got != exp:
+                bad = 'payload %s, required %s' % ([('%02X' % b) if b is not None else '??' for b in got], ['%02X' % b for b in exp])
+            elif fr.get('frm.Identifier') != 0x181:
+                bad = 'identifier %s' % fr.get('frm.Identifier')
+        if bad:
+            ctx.ob(P, 'RF13-tpdo-layout', f, site, None)
+            ctx.find(P, 'RF13-tpdo-layout', f, 'layout:%s' % '-'.join(map(str, widths)), m.loc(f, m.funcs[f].line), '%s: %s' % (site, bad))
+        else:
+            ctx.ob(P, 'RF13-tpdo-layout', f, site, 'packed back to back, little endian')
+
+
+_run_before_layout = run
+
+
+def run(ctx):
+    _run_before_layout(ctx)
+    tpdo_layout(ctx)
